@@ -674,7 +674,8 @@ def weave_item(repo, spec):
             if sec.n >= len(hits):
                 raise Undecided('%s: pattern %r occurrence %d not found in %s' % (sec.kind, sec.arg, sec.n, spec.name))
             if sec.kind == 'before':
-                add_before(hits[sec.n], ghost(sec, 'S'))
+                # ghost statements go in front of anything a dialect rule puts at the same token (e.g. the R4 head)
+                ins_before.setdefault(hits[sec.n], []).insert(0, ghost(sec, 'S'))
             else:
                 add_after(hits[sec.n] + len(pt) - 1, ghost(sec, 'S'))
 
